@@ -108,11 +108,25 @@ pub fn execute_case(case: &Value, scratch: &str) -> Outcome {
             }
         })
         .expect("spawn");
+    // wall-clock watchdog: only reaps an execution that takes no end (a library call that never
+    // returns). The verdict never depends on it; a reaped run is a harness error (or the engine's own
+    // liveness verdict where the property promises termination).
+    let t0 = std::time::Instant::now();
+    let limit = std::time::Duration::from_secs(WATCHDOG_SECS.load(std::sync::atomic::Ordering::Relaxed));
+    while !h.is_finished() {
+        if t0.elapsed() > limit {
+            // the thread is leaked; process exit reaps it
+            return Outcome { harness_error: Some(format!("hang: execution did not finish within {:?}: {}", limit, case.to_string().chars().take(600).collect::<String>())), ..Default::default() };
+        }
+        std::thread::sleep(std::time::Duration::from_micros(200));
+    }
     match h.join() {
         Ok(o) => o,
         Err(_) => Outcome { harness_error: Some("run thread died".into()), ..Default::default() },
     }
 }
+
+pub static WATCHDOG_SECS: std::sync::atomic::AtomicU64 = std::sync::atomic::AtomicU64::new(120);
 
 /// Fixed warm-up: pins every process-global the library initialises lazily (lazy_static regexes, the
 /// built-in number-format map) on a thread whose hash keys derive from the process seed.
